@@ -24,9 +24,19 @@ Record export_row := mkE {
 
 (* InitGenesis: a keeper setter call (in source order), the fields its arguments derive from, the
    prefixes it writes, and what happens when the setter returns an error: 0 it cannot (no non-nil
-   error return), 1 InitGenesis returns - everything after it is skipped, 2 the item is dropped *)
+   error return), 1 InitGenesis returns - everything after it is skipped, 2 the item is dropped;
+   3 / 4: as 1 / 2, but every failing return of the setter is guarded by a condition over the
+   imported item alone (collector.SetNetFeeCollectedData: the fee is negative), not over other state *)
 Record import_row := mkI {
   i_mod : string; i_setter : string; i_fields : list string; i_writes : list Z; i_arg : argkind;
   i_guard : Z }.
+
+(* a setter of InitGenesis whose error depends on OTHER state (guard 1 / 2): [g_sole] every keeper
+   function writing one of its prefixes is the setter itself or reached from it; [g_noreads] it
+   reads nothing of its own module's store; [g_foreign] the methods it calls on other modules'
+   keepers (module, method, prefixes that method reads there; module "?" when not a DeFi keeper) *)
+Record guard_row := mkGD {
+  g_mod : string; g_setter : string; g_sole : bool; g_noreads : bool;
+  g_foreign : list (string * string * list Z) }.
 
 Record unrec_row := mkU { u_mod : string; u_what : string }.
